@@ -62,6 +62,7 @@ func srtRead(n int, c srtCase) srtEvent {
 	p := srtx.PoolFor(n)
 	ev := srtEvent{N: n, Dir: "read", G: normCues(c.G), D: normDoc(c.D), Post: []srtx.Cue{}}
 	raw := srtx.Concretise(c.D, p)
+	dumpDoc("srt", n, raw)
 	ev.Raw = string(raw)
 	var s *astisub.Subtitles
 	var err error
